@@ -1,17 +1,347 @@
 (* C15 -- Elementary functions are accurate, flagged, and exact at special
-   points.  Property theorems only; each closed by [exact]. *)
-From FendV Require Import Base.Prelude Elem.Bridge Elem.Model Elem.TrigReals.
-From Coq Require Import QArith Qreals Reals.
+   points.  Property theorems only; each closed by [exact].
+
+   Model: Elem/Bridge.v (soft-float binary64, into_f64, from_f64, BigUint::log2)
+   and Elem/Model.v (Real::sin/cos table, approximate = the rational used for
+   pi, BigRat functions, pow/root_n, angle units).  libm is a parameter
+   [Fo : oracles] (bit pattern -> bit pattern): every theorem below holds for
+   EVERY libm unless it names a hypothesis about it.
+
+   Status of the clauses of the property statement:
+     exact at the documented points, unmarked ....... theorems (1)-(6), (12)-(13)
+     everything else marked approximate .............. theorems (7)-(8)
+     pi and e ........................................ theorems (9)-(10)
+     angle units converted before use ................ theorem (11)
+     the f64 bridge (conversion, saturation, NaN) .... theorems (14)-(16)
+     accuracy 1e-9*max(1,|true|) up to 10^3 .......... stated in full as
+         [C15_accuracy_statement]; proved conditionally for sin, cos, atan
+         (17)-(19) from a libm hypothesis and a conversion hypothesis, with
+         the error budget of the bridge proved for any Lipschitz function (20);
+         REFUTED in general (21)-(24) with witnesses that hold for every
+         correct libm.                                                       *)
+From FendV Require Import Base.Prelude Elem.Bridge Elem.Model Elem.ModelProofs
+  Elem.BridgeProofs Elem.TrigReals Elem.PointDefs Elem.Accuracy.
+From Coq Require Import QArith Qabs Qreals Reals.
 Open Scope R_scope.
 
-(* sin at every multiple z*pi/6 whose sine is rational (residue of |z| mod 12
-   not in {2,4,8,10}), for every z below the usize cut-off, in any
-   representation n of z/6, and for any libm: answered from the table, marked
-   exact, and equal to the real sine. *)
-Theorem C15_sin_special : forall (Fo : oracles) (z : Z),
-  (Z.abs z < 2 ^ 64)%Z -> good_residue (Z.abs_N z) = true ->
-  forall n, (n == z # 6)%Q ->
+(* ---------------------------------------------------------------- (1) *)
+(* sin at every multiple z*pi/6 whose sine is rational (|z| mod 12 not in
+   {2,4,8,10}), for every |z| below the code's usize cut-off 2^64, in any
+   representation n of z/6, for any libm: answered from the table, marked
+   exact, equal to the real sine. *)
+Theorem C15_sin_special : forall (Fo : oracles) (z : Z) (n : Q),
+  (Z.abs z < 2 ^ 64)%Z -> (n == z # 6)%Q ->
+  good_residue (Z.abs_N z) = true ->
   exists v, real_sin Fo (RPi n) = Ok (mkEx (RSimple v) true)
             /\ Q2R v = sin (IZR z * PI / 6).
 Proof. exact sin_special_lemma. Qed.
 Print Assumptions C15_sin_special.
+
+(* ---------------------------------------------------------------- (2) *)
+Theorem C15_cos_special : forall (Fo : oracles) (z : Z),
+  (Z.abs (z + 3) < 2 ^ 64)%Z -> good_residue (Z.abs_N (z + 3)) = true ->
+  exists v, real_cos Fo (RPi (z # 6)) = Ok (mkEx (RSimple v) true)
+            /\ Q2R v = cos (IZR z * PI / 6).
+Proof. exact cos_special_lemma. Qed.
+Print Assumptions C15_cos_special.
+
+(* multiples of pi/2 (z = 3k) always have a good residue *)
+Theorem C15_half_pi_multiples_good : forall k : N, good_residue (3 * k) = true.
+Proof. exact good_residue_mul3. Qed.
+Print Assumptions C15_half_pi_multiples_good.
+
+(* ---------------------------------------------------------------- (3) *)
+(* Without the cut-off (1) is false: REFUTED.  sin(2^70 pi) = 0 is a
+   documented exact point; for every libm the result is marked approximate. *)
+Theorem C15_sin_special_unbounded_refuted :
+  exists (z : Z) (n : Q), (n == z # 6)%Q /\ good_residue (Z.abs_N z) = true /\
+    forall Fo, exists v, real_sin Fo (RPi n) = Ok (mkEx v false).
+Proof. exact sin_special_unbounded_refuted_lemma. Qed.
+Print Assumptions C15_sin_special_unbounded_refuted.
+
+(* the classifier of the known class big_pi_multiple at the cut-off:
+   6 * 3074457345618258603 = 2^64 + 2 *)
+Theorem C15_big_pi_classifier_examples :
+  known_big_pi_multiple (2 ^ 70 # 1)%Q = true /\
+  known_big_pi_multiple (3074457345618258603 # 1)%Q = true /\
+  known_big_pi_multiple (3074457345618258603 # 2)%Q = false /\
+  known_big_pi_multiple (3074457345618258602 # 1)%Q = false.
+Proof. exact known_big_pi_examples. Qed.
+Print Assumptions C15_big_pi_classifier_examples.
+
+(* ---------------------------------------------------------------- (4) *)
+(* soundness of the exact flag of sin, for EVERY rational multiple n of pi
+   (unbounded, any representation, either sign) and every rational s *)
+Theorem C15_sin_exact_flag_sound : forall Fo n v,
+  real_sin Fo (RPi n) = Ok (mkEx v true) -> real_val v = sin (Q2R n * PI).
+Proof. exact sin_pi_exact_sound. Qed.
+Print Assumptions C15_sin_exact_flag_sound.
+
+Theorem C15_sin_rational_exact_flag_sound : forall Fo s v,
+  real_sin Fo (RSimple s) = Ok (mkEx v true) -> real_val v = sin (Q2R s).
+Proof. exact sin_simple_exact_sound. Qed.
+Print Assumptions C15_sin_rational_exact_flag_sound.
+
+(* ---------------------------------------------------------------- (5) *)
+Theorem C15_cos_exact_flag_sound : forall Fo n v,
+  real_cos Fo (RPi n) = Ok (mkEx v true) -> real_val v = cos (Q2R n * PI).
+Proof. exact cos_pi_exact_sound. Qed.
+Print Assumptions C15_cos_exact_flag_sound.
+
+(* ---------------------------------------------------------------- (6) *)
+(* cos of a rational: the flag is sound except at x = -pi_model/2, where
+   x + pi_model/2 = 0 makes sin return an exact 0: REFUTED + except-known *)
+Theorem C15_cos_rational_exact_flag_refuted : forall Fo,
+  exists a v, real_cos Fo (RSimple a) = Ok (mkEx v true) /\ real_val v <> cos (Q2R a).
+Proof. exact cos_simple_exact_refuted_lemma. Qed.
+Print Assumptions C15_cos_rational_exact_flag_refuted.
+
+Theorem C15_cos_rational_exact_flag_except_known : forall Fo a v,
+  ~ (a + (1 # 2) * pi_model == 0)%Q ->
+  real_cos Fo (RSimple a) = Ok (mkEx v true) -> real_val v = cos (Q2R a).
+Proof. exact cos_simple_exact_except_known. Qed.
+Print Assumptions C15_cos_rational_exact_flag_except_known.
+
+(* ---------------------------------------------------------------- (7) *)
+(* flags of the BigRat functions: the only results not marked approximate are
+   sin 0, ln 1 and exp 0, and they are the true values *)
+Theorem C15_bridge_marked : forall Fo f q v,
+  rat_fn Fo f q = Ok v -> exb v = true ->
+  (f = Fsin /\ Q2R (exv v) = sin (Q2R q)) \/
+  (f = Fln /\ Q2R (exv v) = ln (Q2R q)) \/
+  (f = Fexp /\ Q2R (exv v) = exp (Q2R q)).
+Proof. exact rat_fn_exact_values. Qed.
+Print Assumptions C15_bridge_marked.
+
+Theorem C15_bridge_marked_where : forall Fo f q v,
+  rat_fn Fo f q = Ok v -> exb v = true ->
+  (f = Fsin /\ (q == 0)%Q /\ exv v = 0%Q) \/
+  (f = Fln /\ (q == 1)%Q /\ exv v = 0%Q) \/
+  (f = Fexp /\ (q == 0)%Q /\ exv v = 1%Q).
+Proof. exact rat_fn_exact_cases. Qed.
+Print Assumptions C15_bridge_marked_where.
+
+(* ---------------------------------------------------------------- (8) *)
+Theorem C15_real_fn_marked : forall Fo f r v,
+  real_fn Fo f r = Ok v ->
+  f <> Fsin -> f <> Fcos -> f <> Fln -> f <> Fexp -> exb v = false.
+Proof. exact real_fn_bridge_marked. Qed.
+Print Assumptions C15_real_fn_marked.
+
+Theorem C15_ln_exp_exact_only_at : forall Fo f r v,
+  (f = Fln \/ f = Fexp) -> real_fn Fo f r = Ok v -> exb v = true ->
+  (f = Fln /\ (approximate r == 1)%Q /\ exv v = RSimple 0) \/
+  (f = Fexp /\ (approximate r == 0)%Q /\ exv v = RSimple 1).
+Proof. exact real_fn_ln_exp_exact. Qed.
+Print Assumptions C15_ln_exp_exact_only_at.
+
+(* ---------------------------------------------------------------- (9) *)
+(* the rational Real::approximate computes for pi (two Chudnovsky terms, the
+   square roots by 50 bisection steps), evaluated by the model to a literal *)
+Theorem C15_pi_model_value : pi_model_res = Ok (Qmake pi_num pi_den).
+Proof. exact pi_model_res_ok. Qed.
+Print Assumptions C15_pi_model_value.
+
+Theorem C15_pi_accuracy : Rabs (Q2R pi_model - PI) <= 1 / 10 ^ 23.
+Proof. exact pi_accuracy_lemma. Qed.
+Print Assumptions C15_pi_accuracy.
+
+(* --------------------------------------------------------------- (10) *)
+Theorem C15_e_accuracy : Rabs (Q2R e_model - exp 1) <= 1 / 10 ^ 18.
+Proof. exact e_accuracy_lemma. Qed.
+Print Assumptions C15_e_accuracy.
+
+(* --------------------------------------------------------------- (11) *)
+(* degrees (and the other angle units) are converted to an exact multiple of
+   pi before the function is applied *)
+Theorem C15_degrees_to_rad_exact : forall x : Q,
+  angle_to_rad UDegree x = RPi (x * (2 * (1 # 360)))%Q /\
+  real_val (angle_to_rad UDegree x) = Q2R x * PI / 180.
+Proof. exact degrees_to_rad_lemma. Qed.
+Print Assumptions C15_degrees_to_rad_exact.
+
+Theorem C15_angle_units_exact : forall x : Q,
+  real_val (angle_to_rad UCircle x) = Q2R x * (2 * PI) /\
+  real_val (angle_to_rad UArcmin x) = Q2R x * PI / 180 / 60 /\
+  real_val (angle_to_rad UArcsec x) = Q2R x * PI / 180 / 3600 /\
+  real_val (angle_to_rad URightangle x) = Q2R x * PI / 2 /\
+  real_val (angle_to_rad UGradian x) = Q2R x * PI / 200 /\
+  real_val (angle_to_rad URadian x) = Q2R x.
+Proof. exact angle_units_lemma. Qed.
+Print Assumptions C15_angle_units_exact.
+
+(* --------------------------------------------------------------- (12) *)
+(* x^1 = x and 1^x = 1: exact, unmarked, whatever the pattern *)
+Theorem C15_pow_one : forall a, real_pow a (RSimple 1) = Ok (mkEx a true).
+Proof. exact real_pow_one. Qed.
+Print Assumptions C15_pow_one.
+
+Theorem C15_one_pow : forall b, is_simple_one b = false ->
+  real_pow (RSimple 1) b = Ok (mkEx (RSimple 1%Q) true).
+Proof. exact real_one_pow. Qed.
+Print Assumptions C15_one_pow.
+
+(* --------------------------------------------------------------- (13) *)
+(* x^0 = 1 exact and unmarked for every non-zero rational x; REFUTED for a
+   Pi-pattern base (pi^0 is marked approximate) *)
+Theorem C15_pow_zero_except_known : forall x, (Qnum x <> 0)%Z ->
+  exists v, real_pow (RSimple x) (RSimple 0) = Ok (mkEx (RSimple v) true) /\ (v == 1)%Q.
+Proof. exact real_pow_zero. Qed.
+Print Assumptions C15_pow_zero_except_known.
+
+Theorem C15_pow_zero_refuted :
+  exists x, real_pow x (RSimple 0) = Ok (mkEx (RSimple (1 # 1)%Q) false).
+Proof. exists (RPi 1). exact real_pow_zero_pi_marked. Qed.
+Print Assumptions C15_pow_zero_refuted.
+
+(* 2^pi is in the domain, and an error *)
+Theorem C15_pow_irrational_exponent_refuted :
+  real_pow (RSimple 2) (RPi 1) = Err EExpTooLarge.
+Proof. exact pow_two_pi_rejected. Qed.
+Print Assumptions C15_pow_irrational_exponent_refuted.
+
+(* --------------------------------------------------------------- (14) *)
+(* BigRat::from_f64 on a finite value of magnitude below 2^64: absolute error
+   at most 2^-64 *)
+Theorem C15_from_f64_error : forall s m e,
+  fl_saturates (FFin s m e) = false ->
+  (Qabs (from_f64 (FFin s m e) - fl_valQ (FFin s m e)) <= 1 # (Z.to_pos (2 ^ 64)))%Q.
+Proof. exact from_f64_error_lemma. Qed.
+Print Assumptions C15_from_f64_error.
+
+(* --------------------------------------------------------------- (15) *)
+(* ... and from 2^64 on (and for both infinities) the result is exactly
+   +-2^64, NaN is 0: the saturating cast.  This is the statement
+   from_f64_saturates_refuted of the design: a value is returned where the
+   property demands the value or an error. *)
+Theorem C15_from_f64_saturates : forall s m e,
+  fl_saturates (FFin s m e) = true ->
+  (from_f64 (FFin s m e) == inject_Z (sgnZ s (2 ^ 64)%N))%Q.
+Proof. exact from_f64_saturation_lemma. Qed.
+Print Assumptions C15_from_f64_saturates.
+
+Theorem C15_from_f64_inf : forall s, (from_f64 (FInf s) == inject_Z (sgnZ s (2 ^ 64)%N))%Q.
+Proof. exact from_f64_inf. Qed.
+Print Assumptions C15_from_f64_inf.
+
+Theorem C15_from_f64_nan : (from_f64 FNaN == 0)%Q.
+Proof. exact from_f64_nan. Qed.
+Print Assumptions C15_from_f64_nan.
+
+(* --------------------------------------------------------------- (16) *)
+(* into_f64 of (10^400+1)/10^400 is inf/inf = NaN *)
+Theorem C15_into_f64_nan_witness : into_f64 q_big_near_one = FNaN.
+Proof. exact into_f64_big_near_one_is_nan. Qed.
+Print Assumptions C15_into_f64_nan_witness.
+
+(* --------------------------------------------------------- (17)-(19) *)
+(* The headline bound, C15_accuracy:
+
+     forall Fo, C15_accuracy_statement Fo
+     i.e. forall f q, |q| <= 1000 -> in_domain f q ->
+          exists v, real_fn Fo f (RSimple q) = Ok v /\
+                    |v - true_fn f q| <= 1e-9 * max 1 |true_fn f q|
+
+   cannot hold for an arbitrary libm and is refuted below even for a perfect
+   one.  What is proved is the conditional form, for sin, cos and atan, from
+   (a) a libm hypothesis at the single consulted point: the answer is finite,
+       below 2^64 and within 2^-52 of the real function (1 ulp for |y| <= 2),
+   (b) a conversion hypothesis: into_f64 q within 2^-50 relative of q
+       (checked bit-exactly against the implementation on every sampled
+       input at L1; not proved for all q).
+   Missing for the full statement: (b) as a theorem; the functions with
+   unbounded derivative or exponential growth (asin acos acosh atanh sinh
+   cosh exp ln log2 log10), for which the statement is false anyway. *)
+Theorem C15_accuracy_partial : forall Fo q,
+  Rabs (Q2R q) <= 1000 ->
+  into_ok (/ 2 ^ 50) q -> libm_ok (Fo Fsin) sin (/ 2 ^ 52) (into_f64 q) ->
+  exists v, real_fn Fo Fsin (RSimple q) = Ok v /\
+            within_budget (real_val (exv v)) (true_fn Fsin (Q2R q)).
+Proof. exact accuracy_partial_sin. Qed.
+Print Assumptions C15_accuracy_partial.
+
+Theorem C15_accuracy_partial_cos : forall Fo q,
+  Rabs (Q2R q) <= 1000 -> (Qnum q =? 0)%Z = false ->
+  let a := rat_add q ((1 # 2) * pi_model) in
+  into_ok (/ 2 ^ 50) a -> libm_ok (Fo Fsin) sin (/ 2 ^ 52) (into_f64 a) ->
+  exists v, real_fn Fo Fcos (RSimple q) = Ok v /\
+            within_budget (real_val (exv v)) (true_fn Fcos (Q2R q)).
+Proof. exact accuracy_partial_cos. Qed.
+Print Assumptions C15_accuracy_partial_cos.
+
+Theorem C15_accuracy_partial_atan : forall Fo q,
+  Rabs (Q2R q) <= 1000 ->
+  into_ok (/ 2 ^ 50) q -> libm_ok (Fo Fatan) atan (/ 2 ^ 52) (into_f64 q) ->
+  exists v, real_fn Fo Fatan (RSimple q) = Ok v /\
+            within_budget (real_val (exv v)) (true_fn Fatan (Q2R q)).
+Proof. exact accuracy_partial_atan. Qed.
+Print Assumptions C15_accuracy_partial_atan.
+
+(* --------------------------------------------------------------- (20) *)
+(* error budget of the bridge around the oracle, for ANY function fR with
+   Lipschitz constant L: 2^-64 (from_f64) + eps_libm + L * delta * |q| *)
+Theorem C15_bridge_budget : forall (F : oracle) (fR : R -> R) (L eps_libm delta : R),
+  0 <= L -> (forall a b, Rabs (fR a - fR b) <= L * Rabs (a - b)) ->
+  forall q, into_ok delta q -> libm_ok F fR eps_libm (into_f64 q) ->
+  Rabs (Q2R (bridge F q) - fR (Q2R q)) <= / 2 ^ 64 + eps_libm + L * delta * Rabs (Q2R q).
+Proof. exact bridge_budget. Qed.
+Print Assumptions C15_bridge_budget.
+
+(* --------------------------------------------------------- (21)-(24) *)
+(* REFUTED.  (21) acos (1 - 10^-17): the argument is rounded to 1.0, every
+   libm with acos(1.0) = +0.0 yields 0, the true value is 4.47e-9 > 1e-9. *)
+Theorem C15_accuracy_refuted : forall Fo,
+  Fo Facos bits_one = 0%N -> ~ C15_accuracy_statement Fo.
+Proof. exact accuracy_refuted_lemma. Qed.
+Print Assumptions C15_accuracy_refuted.
+
+(* (22) sinh 46: whatever finite value >= 2^64 or +inf libm answers (the true
+   value is 4.7e19), the result is exactly 2^64 and outside the budget *)
+Theorem C15_saturation_refuted : forall Fo y,
+  fl_of_bits (Fo Fsinh (fl_bits (into_f64 46))) = y ->
+  (y = FInf false \/ exists m e, y = FFin false m e /\ fl_saturates y = true) ->
+  exists v, real_fn Fo Fsinh (RSimple 46) = Ok (mkEx (RSimple v) false) /\
+            Q2R v = 2 ^ 64 /\ ~ within_budget (Q2R v) (true_fn Fsinh (Q2R 46)).
+Proof. exact saturation_refuted_lemma. Qed.
+Print Assumptions C15_saturation_refuted.
+
+(* (23) atan ((10^400+1)/10^400) = 0 for every libm that maps NaN to NaN *)
+Theorem C15_nan_refuted : forall Fo,
+  fl_of_bits (Fo Fatan (fl_bits FNaN)) = FNaN ->
+  exists v, real_fn Fo Fatan (RSimple q_big_near_one) = Ok (mkEx (RSimple v) false) /\
+            Q2R v = 0 /\ ~ within_budget (Q2R v) (true_fn Fatan (Q2R q_big_near_one)).
+Proof. exact nan_refuted_lemma. Qed.
+Print Assumptions C15_nan_refuted.
+
+(* ------------------------------------------------------------------ *)
+(* non-vacuity of the hypotheses *)
+
+Example C15_sin_special_inhabited :
+  (Z.abs 7 < 2 ^ 64)%Z /\ ((14 # 12) == 7 # 6)%Q /\ good_residue (Z.abs_N 7) = true.
+Proof. repeat split; reflexivity. Qed.
+
+Example C15_sin_special_inhabited_big :
+  (Z.abs (6 * 3074457345618258602) < 2 ^ 64)%Z /\
+  ((3074457345618258602 # 1) == 6 * 3074457345618258602 # 6)%Q /\
+  good_residue (Z.abs_N (6 * 3074457345618258602)) = true.
+Proof. repeat split; reflexivity. Qed.
+
+Example C15_cos_special_inhabited :
+  (Z.abs (-2 + 3) < 2 ^ 64)%Z /\ good_residue (Z.abs_N (-2 + 3)) = true.
+Proof. split; reflexivity. Qed.
+
+Example C15_from_f64_error_inhabited :
+  fl_saturates (FFin true 6004799503160661 (-54)) = false.      (* -1/3 *)
+Proof. reflexivity. Qed.
+
+Example C15_from_f64_saturates_inhabited :
+  fl_saturates (FFin false 4503599627370496 13) = true.          (* 2^65 *)
+Proof. reflexivity. Qed.
+
+(* the two hypotheses of C15_accuracy_partial are satisfiable: q = 1/2 is
+   converted exactly, and an oracle answering sin(1/2) rounded to nearest
+   (0x3FDEAEE8744B05F0) meets the libm bound *)
+Example C15_accuracy_partial_inhabited :
+  into_ok (/ 2 ^ 50) (1 # 2)%Q /\
+  libm_ok (fun _ => 4602308182625945072%N) sin (/ 2 ^ 52) (into_f64 (1 # 2)%Q).
+Proof. exact accuracy_partial_hyps_inhabited. Qed.
